@@ -187,21 +187,33 @@ def summarise (labels : List String) (dflt : String) : String :=
   | a :: _ => a ++ "+more"
 
 structure Setup where
-  maps : List (MapDict Nat)
+  decls : List (C17Spec.DeclMap Nat)     -- what the specification reads off the dictionaries that are maps
   convs : Option (List (Conv Nat))       -- none: a ConverterError was raised while building
 
-/-- `bundled`: the converters of the bundled maps, built once (`acFactory` handles every map on its
-    own, so a sub-list of the maps gives the sub-list of the converters). -/
-def setupOf (bundled : List (Option (Conv Nat))) (c : Json) : Setup :=
-  let maps := caseMaps c
+/-- Per bundled map, computed once: the converter and the declared pairs. -/
+structure Bundled where
+  conv : Option (Conv Nat)
+  decl : Option (C17Spec.DeclMap Nat)
+
+def bundledTable : List Bundled :=
+  (Gen.AttrMaps.attrMaps.zip bundledConvOf).map fun (m, c) =>
+    ⟨c, if isMap m then some (C17Spec.declMap natOps m) else none⟩
+
+/-- `acFactory` handles every map on its own, so a sub-list of the bundled maps gives the sub-list of
+    the converters built once at start-up. -/
+def setupOf (bundled : List Bundled) (c : Json) : Setup :=
   let m := (obj? c "maps").getD Json.null
   match arr? m "bundled" with
-  | some idx => ⟨maps, some (idx.filterMap fun j => ((asNat? j).bind fun i => bundled[i]?).join)⟩
+  | some idx =>
+    let sel := idx.filterMap fun j => (asNat? j).bind fun i => bundled[i]?
+    ⟨sel.filterMap (·.decl), some (sel.filterMap (·.conv))⟩
   | none =>
-    if strD c "via" == "from_dict" then ⟨maps, convsFromDicts natOps maps⟩
-    else ⟨maps, some (acFactory natOps maps)⟩
+    let maps := caseMaps c
+    let decls := (maps.filter isMap).map (C17Spec.declMap natOps)
+    if strD c "via" == "from_dict" then ⟨decls, convsFromDicts natOps maps⟩
+    else ⟨decls, some (acFactory natOps maps)⟩
 
-def handle (bundled : List (Option (Conv Nat))) (line : Json) : Json :=
+def handle (bundled : List Bundled) (line : Json) : Json :=
   let c := (obj? line "case").getD Json.null
   let impl := (obj? line "impl").getD Json.null
   let su := setupOf bundled c
@@ -212,7 +224,7 @@ def handle (bundled : List (Option (Conv Nat))) (line : Json) : Json :=
     Json.mkObj [("model", Json.mkObj [("r", "raised")]), ("path", "setup/converter-error"), ("paths", jstrs ["setup/converter-error"]),
       ("spec_model", true), ("spec_impl", isRaised)]
   | some acs =>
-    let eff := su.maps.filter isMap      -- the dictionaries that are attribute maps, in converter order
+    let eff := su.decls                  -- the dictionaries that are attribute maps, in converter order
     match strD c "op" with
     | "to_wire" =>
       let s := parseSender c
@@ -264,5 +276,5 @@ def handle (bundled : List (Option (Conv Nat))) (line : Json) : Json :=
     | op => Json.mkObj [("proto_error", Json.str ("unknown op " ++ op))]
 
 def main : IO Unit := do
-  let bundled := bundledConvOf
+  let bundled := bundledTable
   serve (handle bundled)
